@@ -264,6 +264,15 @@ func (w *World) monTokenReqs(rec *CheckRec) {
 			// lost: the service legitimately still holds the predecessor
 			w.lostReply[tr.Chain] = true
 		}
+		if tr.Chain >= 0 && tr.Status == 200 && tr.Grant == "refresh_token" {
+			// ... or its answer arrived but a store / key-source call of the same check failed (injected, or made
+			// with a context the caller had cancelled): the successor could not be validated or saved
+			for _, fl := range rec.Faults {
+				if strings.HasPrefix(fl, "store.") || strings.HasPrefix(fl, "jwks.") || strings.HasPrefix(fl, "idp.jwks") {
+					w.lostReply[tr.Chain] = true
+				}
+			}
+		}
 	}
 	for _, tr := range rec.TokenReqs {
 		if rec.Filter < 0 {
